@@ -59,6 +59,7 @@ type Client struct {
 	polling     bool
 	posting     bool
 	lateN       int
+	srvOut      []*half             // server->client halves of this client's WebSocket connections (back-pressure)
 	deadStreams map[streamConn]bool // candidate connections whose stream has ended
 	upgrading   bool
 	sendQ       []ref.Packet
@@ -324,6 +325,11 @@ func (c *Client) plan() {
 			c.stopped = true
 			c.w.fault("silence")
 			c.rec("c-silent", "", 0)
+			for _, h := range c.srvOut {
+				h.mu.Lock()
+				h.capacity = c.sp.RecvWindow
+				h.mu.Unlock()
+			}
 		}})
 	}
 	if c.sp.CloseAtMs > 0 {
@@ -663,6 +669,11 @@ func (c *Client) streamReader(s streamConn) {
 				}
 				c.deadStreams[s] = true
 			}
+			return
+		}
+		if c.stopped && c.sp.RecvWindow > 0 {
+			// a silent peer that has also stopped reading: what the server writes from now on piles up
+			simrt.Block(func() bool { return c.closed })
 			return
 		}
 		if c.stopped {
@@ -1009,6 +1020,11 @@ func (c *Client) openWS(query string, extra ...map[string]string) (streamConn, *
 		sconn.in.frag = c.sp.Frag
 	}
 	sconn.in.onFault = c.w.fault
+	if c.sp.RecvWindow > 0 {
+		// (the window bites once the client has gone silent and stopped reading, see plan())
+		sconn.out.onFault = c.w.fault
+		c.srvOut = append(c.srvOut, sconn.out)
+	}
 	h := c.hdr()
 	h["Connection"] = "Upgrade"
 	h["Upgrade"] = "websocket"
